@@ -17,7 +17,9 @@ import (
 	"io"
 	"net/http"
 	"net/url"
+	"strconv"
 	"strings"
+	"sync/atomic"
 	"time"
 )
 
@@ -35,7 +37,12 @@ type OCSPRevocationChecker struct {
 	ocspConfig *config.OCSPConfig
 	logger     *zap.Logger
 	cache      *cache2go.CacheTable
+	//number of this checker, part of its cache keys
+	instance int64
 }
+
+// provisionedCheckers counts the checkers which were provisioned in this process
+var provisionedCheckers int64
 
 func (c *OCSPRevocationChecker) IsRevoked(clientCertificate *x509.Certificate, verifiedChains [][]*x509.Certificate) (*core.RevocationStatus, error) {
 	//a certificate is identified by its issuer and its serial number, the subject is not unique across issuers
@@ -46,6 +53,9 @@ func (c *OCSPRevocationChecker) IsRevoked(clientCertificate *x509.Certificate, v
 	cacheKey := issuerRDNSequence.String() + "_" + clientCertificate.SerialNumber.String()
 	//the rendered name is lossy (octets which are not valid utf-8 all look the same), the encoded issuer name tells such issuers apart
 	cacheKey = hex.EncodeToString(clientCertificate.RawIssuer) + "_" + cacheKey
+	//the cache table is shared by all checkers of the process, but a cached status lives as long as the configuration of the
+	//checker which obtained it allows: a checker only uses the entries it added itself
+	cacheKey = strconv.FormatInt(c.instance, 10) + "_" + cacheKey
 	cache, err := c.tryGetResponseFromCache(cacheKey)
 	if err == nil {
 		return cache, nil
@@ -170,6 +180,7 @@ func (c *OCSPRevocationChecker) Provision(ocspConfig *config.OCSPConfig, logger 
 	c.logger = logger
 	//the cache table is looked up once here, concurrent lookups only read the field
 	c.cache = cache2go.Cache("ocsp_client")
+	c.instance = atomic.AddInt64(&provisionedCheckers, 1)
 	return nil
 }
 
